@@ -245,10 +245,20 @@ def build_config(cfg):
     return pq.Config(**kw)
 
 
+def sim_d(subject):
+    """The `d` handed to the simulator: None when the subject asks for the number of modes to be inferred."""
+    return None if subject.get("infer_d") else subject["d"]
+
+
+def can_infer_d(subject):
+    """Inference (largest explicitly addressed mode + 1) gives subject["d"] iff some instruction names mode d-1."""
+    return any(i.get("modes") and (subject["d"] - 1) in i["modes"] for i in subject["program"] if i["type"] != "$nested")
+
+
 def build_simulator(subject, simcls=None, config=None, connector=None):
     simcls = simcls or simulator_class(subject["sim"])
     config = config if config is not None else build_config(subject.get("config", {}))
-    return simcls(d=subject["d"], config=config, connector=connector)
+    return simcls(d=sim_d(subject), config=config, connector=connector)
 
 
 def plain(o):
